@@ -427,7 +427,7 @@ func runC14(w *mon.W) {
 		} else {
 			var z poly.Sequence
 			how := "gff.Parse of an independently laid out file"
-			parse := func() { buf := []byte(lay); z = gff.Parse(buf); scribble(buf) }
+			parse := func() { buf := []byte(lay); z = gff.Parse(buf); unchangedThenScribble(w, id, "gff.Parse", buf, lay) }
 			if k%5 == 2 {
 				// the same text through the file-based entry point
 				how = "gff.Read of an independently laid out file"
